@@ -1,0 +1,53 @@
+//go:build verif
+
+package fmap
+
+// Contracts for the fmap plugin (C17, C16, C01, C09), read by /verif's gvc (comment-only file).
+
+//@ func (g *gen) Add(name string, typs []types.Type) (r string, err error)
+//@ param typs: len=0,1,2,3
+//@ param name: classes=Ident
+
+//@ func (g *gen) Generate(typs []types.Type) (err error)
+//@ param typs: len=2
+
+//@ func (g *gen) genSlice(typs []types.Type) (err error)
+//@ param typs: len=2
+//@ emits: decls
+//@ serves: fmap len=2 kind1=Slice typs=typs
+//@ o-sig: (f func($param0(typs[0])) $result0(typs[0]), list []$param0(typs[0])) (r []$result0(typs[0]))
+//@ o-requires: f != nil
+//@ o-ensures: [map] len(r) == len(list) && forall j int :: 0 <= j && j < len(list) ==> r[j] == f(list[j])
+//@ o-ensures: [once-per-element-in-order] traceLen() == len(list) && forall j int :: 0 <= j && j < len(list) ==> called(j, f, list[j])
+//@ o-loop: 1: invariant len(out) == len(list) && traceLen() == $i
+//@ o-loop: 1: invariant forall j int :: 0 <= j && j < $i ==> out[j] == f(list[j]) && called(j, f, list[j])
+
+//@ func (g *gen) genString(typs []types.Type) (err error)
+//@ param typs: len=2
+//@ emits: decls
+//@ serves: fmap len=2 kind1=Basic typs=typs
+//@ o-sig: (f func(rune) $result0(typs[0]), ss string) (r []$result0(typs[0]))
+//@ o-requires: f != nil
+//@ o-ensures: [map-over-runes] len(r) == runeCount(ss) && forall k int :: 0 <= k && k < runeCount(ss) ==> r[k] == f(runeAt(ss, k))
+//@ o-ensures: [once-per-rune-in-order] traceLen() == runeCount(ss) && forall k int :: 0 <= k && k < runeCount(ss) ==> called(k, f, runeAt(ss, k))
+//@ o-loop: 1: invariant len(out) == runeCount(ss) && traceLen() == $i && i == $i
+//@ o-loop: 1: invariant forall k int :: 0 <= k && k < $i ==> out[k] == f(runeAt(ss, k)) && called(k, f, runeAt(ss, k))
+
+//@ func (g *gen) genError(typs []types.Type) (err error)
+//@ param typs: len=2
+//@ emits: decls
+//@ o-fork: when nresults(typs[0])=1 nilable result0(typs[0])
+//@ serves: fmap len=2 kind1=Signature typs=typs
+//@ o-sig: when nresults(typs[0])=0 (f func($param0(typs[0])), g func() ($param0(typs[0]), error)) (rerr error)
+//@ o-sig: when nresults(typs[0])=1 (f func($param0(typs[0])) $result0(typs[0]), g func() ($param0(typs[0]), error)) (r0 $result0(typs[0]), rerr error)
+//@ o-sig: when nresults(typs[0])=2 (f func($param0(typs[0])) ($result0(typs[0]), $result1(typs[0])), g func() ($param0(typs[0]), error)) (r0 func() ($result0(typs[0]), $result1(typs[0])), rerr error)
+//@ o-sig: when nresults(typs[0])=3 (f func($param0(typs[0])) ($result0(typs[0]), $result1(typs[0]), $result2(typs[0])), g func() ($param0(typs[0]), error)) (r0 func() ($result0(typs[0]), $result1(typs[0]), $result2(typs[0])), rerr error)
+//@ o-requires: f != nil && g != nil
+//@ o-ensures: [g-first-exactly-once] traceLen() >= 1 && called(0, g)
+//@ o-ensures: [stop-at-error] result(1, g) != nil ==> rerr == result(1, g) && traceLen() == 1
+//@ o-ensures: when nresults(typs[0])=1 [zero-on-error] result(1, g) != nil ==> r0 == Zero(result0(typs0))
+//@ o-ensures: when nresults(typs[0])>=2 [zero-on-error] result(1, g) != nil ==> r0 == nil
+//@ o-ensures: [then-f-once] result(1, g) == nil ==> rerr == nil && traceLen() == 2 && called(1, f, result(0, g))
+//@ o-ensures: when nresults(typs[0])=1 [value] result(1, g) == nil ==> r0 == f(result(0, g))
+//@ o-ensures: when nresults(typs[0])=2 [value] result(1, g) == nil ==> result(0, r0) == result(0, f, result(0, g)) && result(1, r0) == result(1, f, result(0, g))
+//@ o-ensures: when nresults(typs[0])=3 [value] result(1, g) == nil ==> result(0, r0) == result(0, f, result(0, g)) && result(1, r0) == result(1, f, result(0, g)) && result(2, r0) == result(2, f, result(0, g))
